@@ -16,11 +16,12 @@ func TestReplay(t *testing.T) { h.ReplayAll(t) }
 // InputSpec describes one encrypted input register.
 type InputSpec struct {
 	Seed      uint64 `json:"seed"`
-	LogMag    int    `json:"logMag"`    // slot values in the box [-2^logMag, 2^logMag] (real and imaginary part)
-	LevelDrop int    `json:"levelDrop"` // level = max - levelDrop (raised again until the message fits)
-	ScaleMode int    `json:"scaleMode"` // 0 default, 1 default*3, 2 default*1.3125, 3 default/2, 4 default*(1+2^-20)
-	LogSlots  int    `json:"logSlots"`  // log2 of the number of slots (sparse packing when < max)
-	Pattern   int    `json:"pattern"`   // 0 uniform box, 1 all equal, 2 corners, 3 one non-zero slot
+	LogMag    int    `json:"logMag"`       // slot values in the box [-2^logMag, 2^logMag] (real and imaginary part)
+	LevelDrop int    `json:"levelDrop"`    // level = max - levelDrop (raised again until the message fits)
+	ScaleMode int    `json:"scaleMode"`    // 0 default, 1 default*3, 2 default*1.3125, 3 default/2, 4 default*(1+2^-20)
+	LogSlots  int    `json:"logSlots"`     // log2 of the number of slots (sparse packing when < max)
+	Pattern   int    `json:"pattern"`      // 0 uniform box, 1 all equal, 2 corners, 3 one non-zero slot
+	PK        bool   `json:"pk,omitempty"` // encrypted with the public key instead of the secret key
 }
 
 // Op is one step of a straight-line program. Registers are addressed modulo the number of live registers.
@@ -52,6 +53,7 @@ type ProgCase struct {
 	Rots   []int       `json:"rots"`
 	Inputs []InputSpec `json:"inputs"`
 	Ops    []Op        `json:"ops"`
+	Indep  bool        `json:"indep,omitempty"` // also decode every output with the independent reference decoder
 }
 
 func (c ProgCase) RandSeed() uint64 { return c.Seed }
@@ -146,11 +148,12 @@ func nearPrime(t *rapid.T, bits int, m uint64, used map[uint64]bool, label strin
 
 func genParams(t *rapid.T) h.CKKSSpec {
 	var s h.CKKSSpec
-	maxLogN := 7
+	// small rings first (rapid favours small indices); logN 8 in the quick tier, up to 11 in the thorough tier
+	logNs := []int{4, 5, 6, 7, 4, 5, 6, 7, 8}
 	if h.Thorough() {
-		maxLogN = 9
+		logNs = []int{4, 5, 6, 7, 8, 4, 5, 6, 7, 8, 9, 4, 5, 6, 10, 11}
 	}
-	s.LogN = rapid.IntRange(4, maxLogN).Draw(t, "logN")
+	s.LogN = logNs[rapid.IntRange(0, len(logNs)-1).Draw(t, "logN")]
 	s.CI = rapid.IntRange(0, 2).Draw(t, "ringType") == 0
 	s.NTT = true
 	m := s.NthRoot()
@@ -231,9 +234,9 @@ func logMaxSlots(s h.CKKSSpec) int {
 }
 
 // operation kinds, repeated according to their weight (rescaling and products are what programs are made of)
-var weightedKinds = []string{"Rescale", "Mul", "MulRelin", "Relinearize", "MulRelinThenAdd", "MulThenAdd", "Rotate", "Add", "Sub", "RescaleTo",
+var weightedKinds = []string{"Rescale", "Mul", "MulRelin", "Relinearize", "MulRelinThenAdd", "MulThenAdd", "Rotate", "RotateHoisted", "Add", "Sub", "RescaleTo",
 	"SetScale", "Conjugate", "ScaleUp", "DropLevel", "Rescale", "Rescale", "Mul", "MulRelin", "Mul", "MulRelin", "MulThenAdd", "MulRelinThenAdd",
-	"Add", "Sub", "Rotate", "Relinearize", "Rescale", "Rescale"}
+	"Add", "Sub", "Rotate", "Relinearize", "Rescale", "Rescale", "RotateHoisted"}
 
 func genScalar(t *rapid.T, op *Op, ci bool) {
 	intOnly := false
@@ -339,7 +342,7 @@ func genOp(t *rapid.T, s h.CKKSSpec, nrot int) Op {
 		op.K = ks[rapid.IntRange(0, len(ks)-1).Draw(t, "k")]
 	case "DropLevel":
 		op.K = rapid.IntRange(0, 2).Draw(t, "k")
-	case "Rotate":
+	case "Rotate", "RotateHoisted":
 		op.K = rapid.IntRange(0, nrot-1).Draw(t, "k")
 	}
 	return op
@@ -382,12 +385,14 @@ func genProg(t *rapid.T) ProgCase {
 		if rapid.IntRange(0, 7).Draw(t, fmt.Sprintf("inSlotsc%d", i)) == 0 {
 			in.LogSlots = rapid.IntRange(0, lms).Draw(t, fmt.Sprintf("inSlots%d", i))
 		}
+		in.PK = rapid.IntRange(0, 2).Draw(t, fmt.Sprintf("inPK%d", i)) == 0
 		in.Pattern = 0
 		if rapid.IntRange(0, 3).Draw(t, fmt.Sprintf("inPatc%d", i)) == 0 {
 			in.Pattern = rapid.IntRange(0, 3).Draw(t, fmt.Sprintf("inPat%d", i))
 		}
 		c.Inputs = append(c.Inputs, in)
 	}
+	c.Indep = rapid.IntRange(0, 2).Draw(t, "indep") == 0
 	nops := rapid.IntRange(1, 10).Draw(t, "nOps")
 	for i := 0; i < nops; i++ {
 		c.Ops = append(c.Ops, genOp(t, c.Params, nrot))
